@@ -288,6 +288,11 @@ func stateInAnnotationObjectKey(s *Scanner, c byte) state {
 		// A tab separates a bare key from the colon as well as a space does.
 		s.step = stateInAnnotationObjectKeyAfter
 
+	case s.boundary == 0 && s.isNewLine(c):
+		// ... and so does a line break in a multi-line annotation.
+		s.found(lexeme.NewLine)
+		s.step = stateInAnnotationObjectKeyAfter
+
 	case c < 0x20 || (c == '"' || bytes.IsNewLine(c)):
 		panic(s.newJSchemaError(errs.ErrInvalidCharacterInAnnotationObjectKey, c))
 	}
@@ -300,6 +305,10 @@ func stateInAnnotationObjectKeyAfter(s *Scanner, c byte) state {
 		return stateEndValue(s, c)
 
 	case c == ' ' || c == '\t':
+		return scanContinue
+
+	case s.isNewLine(c):
+		s.found(lexeme.NewLine)
 		return scanContinue
 	}
 	panic(s.newJSchemaError(errs.ErrInvalidCharacterInAnnotationObjectKey, c))
